@@ -25,6 +25,10 @@ func checkC01(c *Ctx) {
 	c.Expect("C01-R14", 49)
 	c.Rule("C01-R15", "the hyperlink (and title) the application set reaches the terminal as it was given: application text spliced into a capability never passes through the padding stripper (a \"$<5>\" in a URL would be removed)")
 	c.Expect("C01-R15", 2)
+	c.Rule("C01-R16", "the style cache holds only what the terminal was completely told: its only writers are the forget-marker and drawCell's store of the style just emitted (behind the comparison with the cache)")
+	c.Expect("C01-R16", 2)
+	c.Rule("C01-R17", "HideCursor moves the requested cursor position off-screen (the epilogue of every draw re-evaluates the request; a cleared visibility flag alone would be undone by the next Show)")
+	c.Expect("C01-R17", 1)
 	c.Rule("C01-R13", "the underline attribute bit and the underline style stay in step (the painters draw from the style): every Style method that replaces attrs as a whole also sets ulStyle, every method that sets ulStyle also sets the bit")
 	c.Expect("C01-R13", 2)
 	c.Rule("C01-R12", "LockRegion locks exactly the cells of the rectangle it is given (cells outside it stay paintable)")
@@ -65,6 +69,8 @@ func checkC01(c *Ctx) {
 	checkStyleCacheReads(c, p, "C01-R9")
 	checkUnderlineViews(c, p, "C01-R13")
 	checkTextNotPadded(c, p, "C01-R15")
+	checkStyleCacheWrites(c, p, "C01-R16")
+	checkHideCursor(c, p, "C01-R17", "tScreen")
 	if db := buildDB(c, p); db != nil {
 		for _, e := range db.entries {
 			n := e.Int["Colors"]
